@@ -20,6 +20,7 @@ func (c *Ctx) chainIs(rule, key string, pos token.Pos, v ssa.Value, want []strin
 
 func propC17(c *Ctx) propInfo {
 	c.errflow(excC17E2, "ton")
+	c.radixDiscipline("E11.radix", "ton", "liteclient", "utils")
 	const R = "E8.mustcheck"
 	if f := c.mustFn(R, "ton", "AccountIDFromBase64Url"); f != nil {
 		c.mustDominate(R, f, 1, []requiredCheck{
